@@ -239,7 +239,9 @@ func (g *G) genAction(f *FlowSpec, nd *nodeDraft, loc J) J {
 			fs = FieldSpec{Key: "ghost", Name: "Ghost"}
 		}
 		a["field"] = J{"key": fs.Key, "name": fs.Name}
-		vals := []string{"", "@input.text", "male", "17", "2020-02-29", "Kigali City", "Kigali City > Gasabo", "@(repeat(\"é\", 700))", "@(1/0)", "@(fields.age + 1)", "@(now())", g.tmpl(hasWebhook), "@results.answer", "31-12-2019 23:59", "1e3", " x "}
+		vals := []string{"", "@input.text", "male", "17", "2020-02-29", "Kigali City", "Kigali City > Gasabo", "@(repeat(\"é\", 700))", "@(1/0)", "@(fields.age + 1)", "@(now())", g.tmpl(hasWebhook), "@results.answer", "31-12-2019 23:59", "1e3", " x ",
+			// instants that stay the same from sprint to sprint, with digits beyond microseconds
+			"2020-02-29T12:00:00.123456789Z", "@contact.created_on", "@run.created_on"}
 		a["value"] = vals[t.Pick("fieldval", len(vals))]
 	case "set_contact_name":
 		a["name"] = []string{"@input.text", "Bob", "", "@(repeat(\"n😀\", 400))", "@(title(input.text))", g.tmpl(hasWebhook), "  padded  "}[t.Pick("nameval", 7)]
